@@ -247,6 +247,36 @@ def s05_mixed_float_equivalence(ctx):
                 r.violate(key + '|same-pair-ordered-in-search', '%s compares one pair of floats by to_bits() equality (line %d) and by numeric order '
                           '(line %d) to steer a search: for +0.0 vs -0.0 the first says "different" and the second "not greater", so the search '
                           'descends into the wrong half' % (bj['def'], line, same[0]), b.file, line)
+    # (b) across the functions of one source file: where a search identifies an element by its bit pattern, no other function of the file
+    #     may decide "same element" by numeric == / != on floats (0.0 == -0.0 there, but the search will not find the one for the other)
+    search_files = {}
+    float_eq = {}
+    for bid, bj in sorted(f.bodies.items()):
+        if not bj['generic'] or '::tests::' in bj['def'] or 'helpers::assert_' in bj['def']:
+            continue
+        b = Body(bj)
+        has_bits = False
+        for bi, si, s in b.stmts():
+            if s['s'] != 'assign':
+                continue
+            t = b.tree_of_rvalue(s['rv'])
+            if t[0] == 'bin' and t[1] in ('Eq', 'Ne'):
+                x, y = t[2], t[3]
+                if x[0] == 'call' and y[0] == 'call' and x[4].endswith('::to_bits') and y[4].endswith('::to_bits'):
+                    has_bits = True
+                elif s['rv'].get('a', {}).get('pl', {}).get('ty') in ('f64', 'f32') or s['rv'].get('b', {}).get('pl', {}).get('ty') in ('f64', 'f32'):
+                    cst = [o for o in (s['rv'].get('a'), s['rv'].get('b')) if o and o.get('o') == 'const']
+                    if not cst:     # comparing with a literal (== 0.0) is not an identity test between two elements
+                        float_eq.setdefault(bj['file'], []).append((bj['def'], s['sp']['l']))
+        is_search = b.has_loop() or any(t['callee'].get('def') is None for _, t in b.calls()) or any(
+            (callee_def(t['callee']) or '') == bj['def'] for _, t in b.calls())
+        if has_bits and is_search:
+            search_files.setdefault(bj['file'], bj['def'])
+    for fl, sfn in sorted(search_files.items()):
+        r.inst('file|%s|bit-identity-search' % fl)
+        for fn, line in float_eq.get(fl, []):
+            r.violate('%s|float-eq-beside-bit-search' % fn, '%s decides whether two floats are the same value with == / != (line %d) while %s, in the same file, '
+                      'finds elements by bit pattern: +0.0 and -0.0 are equal for the one and different elements for the other' % (fn, line, sfn), fl, line)
     r.floor('to_bits equality sites', 6, nbits)
     return r
 
